@@ -17,6 +17,8 @@ pub fn all() -> Vec<Box<dyn Scenario>> {
         Box::new(signnode::SignNode { mode: signnode::Mode::NoPanic }),
         Box::new(signnode::Flood),
         Box::new(signnode::SignNode { mode: signnode::Mode::Refinement }),
+        Box::new(signnode::ManyPages { mode: signnode::Mode::NoPanic }),
+        Box::new(signnode::ManyPages { mode: signnode::Mode::Refinement }),
         Box::new(c08::C08),
         Box::new(c09::C09Real),
         Box::new(c09::C09Stub),
@@ -65,6 +67,7 @@ pub fn expected_probes(name: &str) -> Vec<&'static str> {
             "abandoned_transfer_then_reset",
         ],
         "c12-flood" => vec!["counter_taken_past_65535"],
+        "c12-many-pages" | "c13-many-pages" => vec!["more_than_256_pages_in_one_transfer"],
         "c17-twin" => vec!["task_switches", "op_succeeded_both_ways", "op_failed_both_ways", "reconfigure_as_other_type", "two_frames_in_line_together", "simulated_read_timeouts", "eintr", "short_write"],
         "c17-bridge" => vec!["undecodable_line_at_bridge", "bridge_wrote_reply", "bridge_silent_no_reply", "eintr", "short_write"],
         "c14-shared-bus" => vec!["two_signs_in_PixelsInProgress", "chunk_absorbed_by_two_signs", "absent_address", "reply_from_sign_index_ge_1", "task_switches"],
